@@ -248,7 +248,9 @@ GRID_SPACES = [
     ('odl.ProductSpace(odl.rn(2), odl.rn(3))', 'prod-rn-rn'),
 ]
 GRID_BASES = [('odl.rn(2)', 2), ('odl.rn(3, weighting=[0.5, 1.0, 4.0])', 3), ('odl.rn((2, 2))', 4),
-              ('odl.uniform_discr([0, 0], [1, 3.0], [2, 3])', 6), ('odl.rn(1)', 1)]
+              ('odl.uniform_discr([0, 0], [1, 3.0], [2, 3])', 6), ('odl.rn(1)', 1),
+              ('odl.uniform_discr([0, 0], [1, 1], [3, 3])', 9), ('odl.rn((2, 2, 3))', 12),
+              ('odl.uniform_discr([0, 0, 0], [1, 2, 1], [2, 3, 2])', 12)]
 GRID_PARAMS = {
     'const': [{'c': -1.5}], 'indzero': [{'c': 0.0}, {'c': 2.0}],
     'box': [{'lo': -1.0, 'hi': 1.0}, {'lo': None, 'hi': 0.0}, {'lo': 0.5, 'hi': 0.5}],
@@ -741,7 +743,7 @@ def rand_factory(rng, tier, depth, sp=None, top=True, force_kind=None, force_g=N
             return ((lambda: P.proximal_arg_scaling(b(), s)), '(KArgScal %s %s)' % (C.q(s), c),
                     'argscal(%r, %s)' % (s, d), sp, v and s != 0 or s == 0)
         if rule == 'quad':
-            a = rng.choice([0.0, 0.5, 1.5, 4.0, 12.0, 0.375, -1.0])
+            a = rng.choice([0.0, 0.5, 1.5, 4.0, 12.0, 0.375] + ([-1.0] if top else []))   # a < 0 raises at construction
             u = None if rng.random() < 0.4 else vec(rng, n, lo=-6, hi=6)
             return ((lambda: P.proximal_quadratic_perturbation(b(), a, None if u is None else sp.el(u))),
                     '(KQuad %s %s %s)' % (C.q(a), coq_opt_vec(u), c), 'quad(%r, %r, %s)' % (a, u, d), sp, False)
@@ -1153,6 +1155,8 @@ def probes(rng, tier):
                 fk = fk or 'indicator-l1-ball-rounding-outside'
             out.append(C.Probe(ok2, fk or 'grid-idempotent-%s-%s' % (k0, tag),
                                '%s: proximal lands in the set and is idempotent' % code, rp))
+    # 1c. matrix-valued functionals on multi-axis base spaces
+    out.extend(matrix_probes(rng, tier))
     # 2. derived functionals (random trees)
     ntrees = 40 if tier == 'quick' else 300
     made = 0
@@ -1331,6 +1335,104 @@ def probes(rng, tier):
                 continue
             out.append(C.Probe(ok, 'indicator-idempotent-%s-%s' % (kind, _space_kind(sp.code)),
                                '%s: proximal lands in the set and is idempotent' % code, rp))
+    return out
+
+
+MATRIX_BASES = [('odl.rn(3)', '1d'), ('odl.uniform_discr([0, 0], [1, 1], [3, 3])', '2d-square'),
+                ('odl.rn((2, 2))', '2d-square'), ('odl.uniform_discr([0, 0], [1, 3.0], [2, 3])', '2d-nonsquare'),
+                ('odl.rn((2, 3, 2))', '3d'), ('odl.uniform_discr([0, 0, 0], [1, 1, 1], [2, 2, 2])', '3d-cube')]
+
+
+def matrix_field_reference(x, sigma, kind, sv):
+    """Independent point-by-point reference for the matrix-valued functionals on X^(n x m): x is an element of
+    ProductSpace(ProductSpace(X, m), n); at every grid point the n x m matrix is treated with its own SVD.
+    kind 'prox': proximal of NuclearNorm(outer 1, singular-vector exponent sv in {1, 2});
+    kind 'ball': projection onto {max over points of the sv-norm of the singular values <= 1}, sv in {2, inf}."""
+    n, m = len(x), len(x[0])
+    comp = [[np.asarray(x[i][j].asarray(), dtype=float) for j in range(m)] for i in range(n)]
+    grid = comp[0][0].shape
+    out = [[np.zeros(grid) for _ in range(m)] for _ in range(n)]
+    for idx in np.ndindex(*grid):
+        A = np.array([[comp[i][j][idx] for j in range(m)] for i in range(n)])
+        U, sval, Vt = np.linalg.svd(A, full_matrices=False)
+        if kind == 'prox' and sv == 1:
+            snew = np.maximum(sval - sigma, 0)
+        elif kind == 'prox' and sv == 2:
+            nrm = np.sqrt(np.sum(sval ** 2))
+            snew = sval * max(1 - sigma / nrm, 0) if nrm > 0 else sval
+        elif kind == 'ball' and sv == 2:
+            nrm = np.sqrt(np.sum(sval ** 2))
+            snew = sval / max(nrm, 1.0)
+        elif kind == 'ball' and sv == np.inf:
+            snew = np.minimum(sval, 1.0)
+        else:
+            raise ValueError((kind, sv))
+        B = (U * snew) @ Vt
+        for i in range(n):
+            for j in range(m):
+                out[i][j][idx] = B[i, j]
+    return x.space.element(out)
+
+
+def matrix_probes(rng, tier):
+    """NuclearNorm / IndicatorNuclearNormUnitBall (through the Moreau rule) on X^(n x m) with 1-, 2- (square and
+    non-square) and 3-axis base spaces X, non-symmetric random fields, every exponent combination with a proximal."""
+    import odl
+    S = odl.solvers
+    out = []
+    reps = 1 if tier == 'quick' else 3
+    for bcode, btag in MATRIX_BASES:
+        for (n, m) in ((2, 2), (2, 3), (3, 2)):
+            scode = 'odl.ProductSpace(odl.ProductSpace(%s, %d), %d)' % (bcode, m, n)
+            for _ in range(reps):
+                sp = Sp(scode)
+                x = [rng.randint(-12, 12) / 4.0 for _ in range(sp.n)]
+                sg = rng.choice([0.25, 0.5, 1.0, 2.0])
+                cases = [('nuclear', 'S.NuclearNorm(%s, 1, 1)' % scode, 'prox', 1),
+                         ('nuclear', 'S.NuclearNorm(%s, 1, 2)' % scode, 'prox', 2),
+                         ('nuclear-inf', 'S.NuclearNorm(%s, 1, np.inf)' % scode, None, np.inf),
+                         ('nuclear-ball', 'S.IndicatorNuclearNormUnitBall(%s, np.inf, 2)' % scode, 'ball', 2),
+                         ('nuclear-ball', 'S.IndicatorNuclearNormUnitBall(%s, np.inf, np.inf)' % scode, 'ball', np.inf)]
+                wide = n < m          # recorded finding nuclear-norm-wide-matrix-field: every evaluation raises
+                for fam, fcode, kind, sv in cases:
+                    if wide:
+                        try:
+                            f = eval(fcode, {'S': S, 'odl': odl, 'np': np})
+                            f.proximal(sg)(unflatten(f.domain, x))
+                            float(f.convex_conj(f.domain.one()) if fam == 'nuclear-ball' else f(f.domain.one()))
+                            ok = True
+                        except Exception:
+                            ok = False
+                        out.append(C.Probe(ok, 'nuclear-norm-wide-matrix-field', '%s can be evaluated' % fcode,
+                                           PROBE_PRELUDE + "f = %s\nok = True\nf(f.domain.one())\n" % fcode))
+                        continue
+                    # (a) against the point-by-point reference (axis order, reshaping, SVD bookkeeping)
+                    if kind is not None:
+                        rp = (PROBE_PRELUDE + "from harness.c07 import matrix_field_reference\n"
+                              "f = %s\nX = f.domain\nx = unflatten(X, %r)\np = f.proximal(%r)(x)\n"
+                              "ref = matrix_field_reference(x, %r, %r, %s)\n"
+                              "observed = flatten(p); expected = flatten(ref)\n"
+                              "ok = float((p - ref).norm()) <= 1e-9 * (1 + float(ref.norm()))\n"
+                              % (fcode, x, sg, sg, kind, 'np.inf' if sv == np.inf else repr(sv)))
+                        e2 = {}
+                        try:
+                            exec(rp, e2)
+                            ok, detail = bool(e2['ok']), None
+                        except Exception as e:   # noqa
+                            ok, detail = False, 'raised %s: %s' % (type(e).__name__, str(e)[:100])
+                        out.append(C.Probe(ok, 'matrix-reference-%s-%s-%s' % (fam, sv, btag),
+                                           '%s: proximal equals the point-by-point SVD reference' % fcode, rp, detail))
+                    # (b) the minimisation oracle itself
+                    if fam == 'nuclear-ball':
+                        continue        # f(p) = inf by the recorded rounding finding; (a) decides
+                    try:
+                        f = eval(fcode, {'S': S, 'odl': odl, 'np': np})
+                        ok, detail, wz = check_optimal(f, ('scal', sg), x, rng, minimise=False)
+                    except Exception as e:   # noqa
+                        ok, detail, wz = False, 'raised %s: %s' % (type(e).__name__, str(e)[:100]), None
+                    key = 'nuclear-norm-exp-inf-proximal' if fam == 'nuclear-inf' else 'matrix-opt-%s-%s-%s' % (fam, sv, btag)
+                    out.append(C.Probe(ok, key, '%s: minimises f(z)+||z-x||^2/(2 sigma)' % fcode,
+                                       optimal_replay(fcode, ('scal', sg), x, wz), detail))
     return out
 
 
